@@ -120,10 +120,10 @@ pub fn generate(seed: u64, w: &World, with_big: bool) -> Value {
     let output = if rng.chance(1, 4) {
         Value::Null
     } else {
-        json!(*rng.pick(&["absent", "text", "old-schema", "text"]))
+        json!(*rng.pick(&["absent", "text", "old-schema", "long-text", "text"]))
     };
     let path = *rng.pick(&["/graphql", "/", "/api/v1/graphql?x=1&y=two"]);
-    let usable: Vec<&Fixture> = w.fixtures.iter().filter(|f| !f.big || (with_big && seed % 8 == 0)).collect();
+    let usable: Vec<&Fixture> = w.fixtures.iter().filter(|f| !f.big || (with_big && seed % 8 == 0) || seed % 64 == 0).collect();
     let fx = *rng.pick(&usable);
     // what the endpoint has to say
     let served = if rng.chance(3, 4) {
